@@ -123,6 +123,26 @@ static V build(M& m, usize kmin, usize kmax, int id, bool draw_fixed = true)
             m.e[m.n++] = e;
         }
     }
+    // history: the same logical content may have been reached by adding one more element and removing it again
+    if (spare == 1)
+    {
+        usize hist = verif_nondet_size();
+        verif_assume(hist < 3);
+        hist = verif_fork(hist);
+        if (hist != 0)
+        {
+            const auto extra = draw(m);
+            emplace_elem<LT>(v, extra);
+            if (hist == 1)
+            {
+                v.pop_back();
+            }
+            else
+            {
+                v.erase(v.begin() + m.n);
+            }
+        }
+    }
     return v;
 }
 
@@ -339,6 +359,13 @@ static void part4()
     const Vec& a = va;
     const Vec& b = vb;
     const Vec& c = vc;
+#ifdef KF_EQ_SHAPE
+    // discriminator of KF-eq-shape: different element counts whose data nevertheless has the same byte length (memcmp equality)
+    {
+        const auto la = a.data_end() - a.data_begin(), lb = b.data_end() - b.data_begin(), lc = c.data_end() - c.data_begin();
+        verif_assume((ma.n == mb.n || la != lb) && (mb.n == mc.n || lb != lc) && (ma.n == mc.n || la != lc));
+    }
+#endif
 #ifdef KF_LT_PARTIAL
     // discriminator of KF-lt-partial: corresponding elements that are neither equal nor ordered by the element-level <
     for (usize i = 0; i < KV; ++i)
